@@ -38,11 +38,11 @@ ASSUMPTIONS = ["'unloading has completed' = the awaitable returned by overlay.un
                "the endpoint itself stays open (other overlays may use it); only the overlay's own sockets must be closed"]
 REACH = ["unload_with_pending_tasks", "unload_with_open_exit_transports", "unload_with_outstanding_caches", "late_datagrams_delivered",
          "register_after_unload_refused", "tm_duplicate_name_refused", "tm_replace_ordered", "scenario:tunnel", "scenario:dht",
-         "scenario:attestation", "scenario:identity", "scenario:multi"]
+         "scenario:attestation", "scenario:identity", "scenario:multi", "scenario:service"]
 
-SCN = ["community", "discovery", "dht", "dhtdiscovery", "tunnel", "hidden", "pex", "attestation", "identity", "multi"]
+SCN = ["community", "discovery", "dht", "dhtdiscovery", "tunnel", "hidden", "pex", "attestation", "identity", "multi", "service"]
 STEPS = {"community": 5, "discovery": 3, "dht": 5, "dhtdiscovery": 7, "tunnel": 5, "hidden": 5, "pex": 5, "attestation": 3,
-         "identity": 3, "multi": 8}
+         "identity": 3, "multi": 8, "service": 6}
 
 
 def cases(tier: str, base_seed: int):  # noqa: ANN201
@@ -234,7 +234,7 @@ def execute(case: dict) -> dict:  # noqa: C901, PLR0915
         victim = nodes[case["node"] % len(nodes)]
         assert victim.name == st["victim_name"], (victim.name, st["victim_name"])
         ovs = list(getattr(victim, "ovs", {"only": victim.ov}).values())
-        if case["scenario"] == "multi":
+        if case["scenario"] in ("multi", "service"):
             ovs = [ovs[rng.randrange(len(ovs))]] if case.get("offset") else [ovs[case["step"] % len(ovs)]]
         victim_ovs.extend(ovs)
         prefixes = [ov.get_prefix() for ov in ovs]
@@ -314,9 +314,12 @@ def execute(case: dict) -> dict:  # noqa: C901, PLR0915
                 world.probe("unload_with_outstanding_caches")
             c.nontrivial(f"{case['scenario']}/{case['node']}/{case['step']}/{bool(pend)}/{bool(opent)}")
             for ov in ovs:
-                await inner_acall(ov.unload)
-                if ov in victim.overlays:
-                    victim.overlays.remove(ov)
+                if hasattr(victim, "unload_overlay"):
+                    await inner_acall(victim.unload_overlay, ov)      # ipv8_service.IPv8.unload_overlay
+                else:
+                    await inner_acall(ov.unload)
+                    if ov in victim.overlays:
+                        victim.overlays.remove(ov)
             st["unloaded"] = True
             st["t"] = loop.time()
             check_now("right after unload() returned")
